@@ -46,6 +46,11 @@ fn main() {
             "C05" => generic::c05_replay(subject.as_ref(), &v),
             "C08" => generic::c08_replay(subject.as_ref(), &v),
             "C09" => generic::c09_replay(subject.as_ref(), &v),
+            "C10" => {
+                let cases = c10_cases();
+                let (_, case) = cases.into_iter().find(|(_, c)| c.label == v["case"].as_str().unwrap()).expect("unknown stream case");
+                generic::c10_replay(subject.as_ref(), &case, &v)
+            }
             other => {
                 eprintln!("mc-cnf: cannot replay property {other:?}");
                 std::process::exit(2);
@@ -161,6 +166,11 @@ fn main() {
             c07::run(tier, &mut report);
             c07::RULE.into()
         }
+        "C10" => {
+            generic::c10_streams(&c10_cases(), tier, &mut report);
+            report.traces = report.evaluations;
+            "parser half: documents generated on the fly (never materialised) streamed through the cnf / wcnf / gcnf parsers at two lengths (N/4 and N; N = 4 MiB quick, 256 MiB thorough) x chunk sizes x read grains; the peak live heap of the parsing thread (counting allocator) must stay below 8*chunk + 24*max_item + 4 KiB and must not grow with the length".into()
+        }
         other => {
             eprintln!("mc-cnf: unknown property {other:?}");
             std::process::exit(2);
@@ -168,6 +178,16 @@ fn main() {
     };
     let v = report.to_json(&cli.cmd, "cnf", tier.name(), t0.elapsed().as_secs_f64(), &rule);
     write_out(&cli, &v);
+}
+
+fn c10_cases() -> Vec<(Box<dyn Subject>, generic::StreamCase)> {
+    let case = |label: &str, prefix: &[u8], period: &[u8], suffix: &[u8], max_item: usize| generic::StreamCase { label: label.into(), prefix: prefix.to_vec(), period: period.to_vec(), suffix: suffix.to_vec(), max_item };
+    vec![
+        (subjects::make("cnf", "i32", false), case("cnf", b"p cnf 99 0\n", b"1 -2 3 0\n-99 0\nc a comment line\n4 5\n-6 0\n\n", b"", 24)),
+        (subjects::make("cnf", "i64", true), case("cnf-headerless", b"", b"12345678 -123456789 0\n7 0\n", b"1 0", 24)),
+        (subjects::make("wcnf", "i32", false), case("wcnf", b"p wcnf 9 0 100\n", b"5 1 -2 0\n18446744073709551615 -9 0\nc x\n", b"", 32)),
+        (subjects::make("gcnf", "i32", false), case("gcnf", b"p gcnf 9 0 7\n", b"{1} 1 -2 0\n{7} -9 0\n", b"", 16)),
+    ]
 }
 
 fn sample_docs(report: &mut Report, kind: &str, docs: &[mc_core::generic::Doc]) {
